@@ -33,7 +33,9 @@ type c01Run struct {
 	id       string
 	prof     Profile
 	tr       transpileFn
-	ownInfo  bool // programs carry their own package_info (C17)
+	gtr      groupTranspileFn // when set, used instead of tr for whole batches
+	label    string           // prefix of violation names ("" for fc in C01)
+	ownInfo  bool             // programs carry their own package_info (C17)
 	mu       sync.Mutex
 	census   *Census
 	sizes    map[string]int
@@ -134,10 +136,10 @@ func usesExtPartial(p *Prog) bool {
 }
 
 func (r *c01Run) violationDoc(pc *progCase, class string, orig *Prog) map[string]any {
-	doc := map[string]any{"class": class, "origin": pc.Origin, "source": pc.Src, "expected_stdout": pc.expectOut(), "actual_stdout": pc.Out}
+	doc := map[string]any{"class": class, "transpiler": r.label, "origin": pc.Origin, "source": pc.Src, "expected_stdout": pc.expectOut(), "actual_stdout": pc.Out}
 	if pc.P.RawFo == "" {
 		doc["program_sexp"] = pc.P.ToSexp()
-		doc["source"] = ToFolangOpts(pc.P, PrintOpts{OwnPkgInfo: r.ownInfo})
+		doc["source"] = ToFolangOpts(pc.P, PrintOpts{OwnPkgInfo: r.ownInfo, Tiny: r.ownInfo})
 	}
 	if orig != nil && orig.RawFo == "" {
 		doc["original_program_sexp"] = orig.ToSexp()
@@ -235,7 +237,7 @@ func (r *c01Run) shrink(pc *progCase, class string) *progCase {
 	}
 	best := pc
 	sig := failSig(pc, class)
-	deadline := time.Now().Add(time.Duration(r.c.Pick(90, 300)) * time.Second)
+	deadline := time.Now().Add(time.Duration(r.c.Pick(75, 300)) * time.Second)
 	test := func(cands []*Prog) []bool {
 		if time.Now().After(deadline) {
 			return make([]bool, len(cands))
@@ -251,7 +253,7 @@ func (r *c01Run) shrink(pc *progCase, class string) *progCase {
 				live = append(live, cs)
 			}
 		}
-		runBatch(r.c, r.dir("shrink"), live, r.tr, false, class == "reject")
+		runBatchG(r.c, r.dir("shrink"), live, r.tr, r.gtr, false, class == "reject")
 		res := make([]bool, len(cands))
 		for i, cs := range cases {
 			if cs.Expect.OK() && cs.verdict() == class && failSig(cs, class) == sig {
@@ -295,7 +297,7 @@ func (r *c01Run) judge(pc *progCase, shrinkBudget *int) {
 			*shrinkBudget--
 			sh = r.shrink(pc, v)
 		}
-		c.Violate("hazard-"+key, summarize(sh, v)+" (defect class "+key+", not listed as known)", r.violationDoc(sh, v, pc.P), false)
+		c.Violate(r.label+"hazard-"+key, r.label+summarize(sh, v)+" (defect class "+key+", not listed as known)", r.violationDoc(sh, v, pc.P), false)
 		return
 	}
 	c.Compared(1)
@@ -308,7 +310,7 @@ func (r *c01Run) judge(pc *progCase, shrinkBudget *int) {
 		*shrinkBudget--
 		sh = r.shrink(pc, v)
 	}
-	c.Violate(v, summarize(sh, v), r.violationDoc(sh, v, pc.P), false)
+	c.Violate(r.label+v, r.label+summarize(sh, v), r.violationDoc(sh, v, pc.P), false)
 }
 
 // runAll: batches in parallel; returns the finished cases.
@@ -333,7 +335,7 @@ func (r *c01Run) runAll(cases []*progCase, batch int, realFc func(pc *progCase))
 	Parallel(len(batches), func(i int) {
 		sem <- true
 		defer func() { <-sem }()
-		runBatch(r.c, r.dir("batch"), batches[i], r.tr, os.Getenv("VH_KEEP") != "", false)
+		runBatchG(r.c, r.dir("batch"), batches[i], r.tr, r.gtr, os.Getenv("VH_KEEP") != "", false)
 		if realFc != nil && len(batches[i]) > 0 {
 			realFc(batches[i][len(batches[i])/2])
 		}
@@ -431,7 +433,7 @@ func runC01(c *Ctx) {
 	c.Lap("transpile+build+run")
 
 	// ---- the property: Go vs reference interpreter
-	shrinkBudget := 3
+	shrinkBudget := c.Pick(2, 4)
 	accepted := 0
 	for _, pc := range cases {
 		r.record(pc)
@@ -596,7 +598,7 @@ func c01Replay(r *c01Run) {
 	}
 	p.Hazard = doc.Replay.Hazard
 	pc := prepCase(0, p, "replay", r.ownInfo)
-	runBatch(c, r.dir("replay"), []*progCase{pc}, r.tr, false, false)
+	runBatchG(c, r.dir("replay"), []*progCase{pc}, r.tr, r.gtr, false, false)
 	c.Eval(pc.Src, true)
 	c.Compared(1)
 	if v := pc.verdict(); v != "" {
